@@ -673,36 +673,60 @@ def independent_cms(case, row, labs=None):
     return 1.0 if (la is not None and la == lb) else 0.0
 
 
-def err_rows(case, res):
-    """captured rows for the prediction-error call, canonical order"""
-    rows = res["lwp_err"]
-    return sorted(rows, key=lambda r: (str(row_ids(case, r)), str(r["clerical_match_score"])))
+def error_universe(case, res):
+    """The labelled pairs prediction_errors must decide about, built INDEPENDENTLY of the implementation's
+    CTE: labels-table mode = our label rows joined to the records; label-column mode = admissible pairs
+    found by a plain predict() or sharing a non-NULL label.  Clerical score and found flag are ours; the
+    match probability is the current model's (the implementation's own float when it agrees to 1e-9)."""
+    rows, _, problems = spec_rows(case, res)
+    so = res["score_oracle"]
+    own = {}
+    for r in res["lwp_err"]:
+        own.setdefault(frozenset(row_ids(case, r)), r["match_probability"])
+    out = []
+    for r in rows:
+        key = r["pair"]
+        mp = so[key][1] if key in so else None
+        if key in own and (mp is None or abs(own[key] - mp) <= 1e-9):
+            mp = own[key]
+        if mp is None:
+            problems.append(f"pair {sorted(key)} has no score under the current model")
+            continue
+        out.append({"pair": key, "cms": None if r["cms"] is None else float(r["cms"]), "mp": Fraction(mp), "found": r["found"]})
+    out.sort(key=lambda r: (str(sorted(map(str, r["pair"]))), str(r["cms"])))
+    return out, problems
 
 
 def oracle_errors(case, res):
     er = case["errors"]
     t = Fraction(er["t"])
     col = case["mode"] == "column"
-    fo = res["found_oracle"]
+    uni, problems = error_universe(case, res)
+    out = [("pairs", None, p) for p in problems]
+    # the pairs the implementation decides about must be exactly that universe
+    want_pairs = sorted(sorted(map(str, r["pair"])) for r in uni)
+    got_pairs = sorted(sorted(map(str, row_ids(case, r))) for r in res["lwp_err"])
+    if want_pairs != got_pairs:
+        missing = [p for p in want_pairs if p not in got_pairs][:3]
+        extra = [p for p in got_pairs if p not in want_pairs][:3]
+        out.append(("pairs", None, f"prediction_errors decides about {len(got_pairs)} pairs but the labelled pairs are {len(want_pairs)} "
+                    f"(missing e.g. {missing}, extra e.g. {extra})"))
+    if col:
+        labs = label_of(case)
+        for r in res["lwp_err"]:
+            if canon_float(r["clerical_match_score"]) != independent_cms(case, r, labs):
+                a, b = row_ids(case, r)
+                out.append(("clerical", None, f"pair {sorted([a, b])} with labels {labs.get(a)!r}, {labs.get(b)!r} has clerical_match_score "
+                            f"{r['clerical_match_score']!r}; the label column defines {independent_cms(case, r, labs)}"))
+                break
     want = []
-    labs = label_of(case)
-    out = []
-    for r in err_rows(case, res):
-        a, b = row_ids(case, r)
-        key = frozenset([a, b])
-        cms = independent_cms(case, r, labs)
-        if col and canon_float(r["clerical_match_score"]) != cms and not out:
-            out.append(("clerical", None, f"pair {sorted(key)} with labels {labs.get(a)!r}, {labs.get(b)!r} has clerical_match_score "
-                        f"{r['clerical_match_score']!r}; the label column defines {cms}"))
-        mp = Fraction(r["match_probability"])
-        so = res["score_oracle"]
-        if key in so and abs(so[key][1] - r["match_probability"]) > 1e-9:
-            mp = Fraction(so[key][1])                    # stale: judge with the current model's probability
-        found = True if fo is None else key in fo
+    for r in uni:
+        cms, mp, found = r["cms"], r["mp"], r["found"]
         fp = cms is not None and Fraction(cms) < t and mp > t
         fn = cms is not None and Fraction(cms) > t and (mp < t or (col and not found))
         if (er["inc_fp"] and fp) or (er["inc_fn"] and fn):
-            want.append((sorted(map(str, key)), cms, None if col else ("FP" if fp else "FN")))
+            want.append((sorted(map(str, r["pair"])), cms, None if col else ("FP" if fp else "FN")))
+    labs = label_of(case)
     got = []
     for r in res["errors"]:
         got.append((sorted(map(str, row_ids(case, r))), independent_cms(case, r, labs),
@@ -783,24 +807,19 @@ def column_term(case, res):
 def errors_term(case, res):
     er = case["errors"]
     col = case["mode"] == "column"
-    rows = err_rows(case, res)
-    terms = []
-    fo = res["found_oracle"]
+    uni, _ = error_universe(case, res)                 # independent of the implementation's CTE
+    terms = [f"({coq_opt(r['cms'], lambda x: coq_Q(Fraction(x)))}, {coq_Q(r['mp'])}, {coq_bool(r['found'])})" for r in uni]
+    # map each returned row to the index of a universe row with the same ids (and clerical score if possible)
     labs = label_of(case)
-    for r in rows:
-        cms = independent_cms(case, r, labs)                                  # independent of the implementation
-        found = True if fo is None else frozenset(row_ids(case, r)) in fo     # independent of the implementation
-        terms.append(f"({coq_opt(cms, lambda x: coq_Q(Fraction(x)))}, {coq_Q(Fraction(r['match_probability']))}, "
-                     f"{coq_bool(found)})")
-    # map each returned row to the index of a captured row with the same ids and clerical score
     used = set()
     impl = []
     for e in res["errors"]:
-        ident = (str(row_ids(case, e)), str(e["clerical_match_score"]))
-        idx = next((i for i, r in enumerate(rows)
-                    if i not in used and (str(row_ids(case, r)), str(r["clerical_match_score"])) == ident), None)
+        key = frozenset(row_ids(case, e))
+        cms = independent_cms(case, e, labs)
+        cand = [i for i, r in enumerate(uni) if i not in used and r["pair"] == key]
+        idx = next((i for i in cand if uni[i]["cms"] == cms), cand[0] if cand else None)
         if idx is None:
-            idx = 10**6 % 997 + len(rows)            # an index the model can never produce
+            idx = len(uni) + 7 + len(impl)           # an index the model can never produce
         used.add(idx)
         code = 0 if col else {"FP": 1, "FN": 2}.get(e.get("truth_status"), 0)
         impl.append((idx, code))
